@@ -31,8 +31,8 @@ UlpQ(m) == IF m < 16777216 THEN 1 ELSE IF m < 33554432 THEN 2 ELSE IF m < 671088
 Max3(a, b, c) == Max2(a, Max2(b, c))
 Min3(a, b, c) == Min2(a, Min2(b, c))
 
-\* samples per time t (microseconds) at sample rate fs (a multiple of 100 Hz)
-SamplesPer(t) == Max2(2, ((t \div 100) * (fs \div 100)) \div 100)
+\* samples per time t (microseconds, <= 10^7) at sample rate fs (Hz, <= 192000), without leaving 32 bits
+SamplesPer(t) == Max2(2, ((t \div 1000) * fs + ((t % 1000) * fs) \div 1000) \div 1000)
 FastUs == 2000000 \div fs
 
 Eps(a, b, c, d) == 4 * UlpQ(Max2(Max2(Abs(a), Abs(b)), Max2(Abs(c), Abs(d))))
